@@ -5,7 +5,7 @@
 
     * `Printer::printModel` ends with the flag off (src/printer.cpp: `xmlKeepBlanksDefault(0)` before the final parse);
     * `XmlNode::convertToString` turns it on (src/xmlnode.cpp), which every parse of a document with MathML (component
-      math, reset test / reset values) does after reading the document, and every analysis of a model with ci / cn elements;
+      math, reset test / reset values) does after reading the document, and every analysis or validation of a model with ci / cn elements;
     * `XmlDoc::parse` reads it: with the flag off, white space between the tags of the MathML is dropped.
 
   So what `Parser::parseModel` returns for one text depends on the calls made before in the process: a known finding.
@@ -16,8 +16,8 @@ namespace Cellml.Purity
 inductive Op where
   | parse (hasMath : Bool)        -- parseModel of a document with / without MathML
   | print                         -- printModel
-  | analyse (hasMath : Bool)      -- analyseModel: reading a ci / cn element goes through XmlNode::convertToString
-  | other                         -- validate, generate, flatten: they do not write the flag
+  | analyse (hasMath : Bool)      -- analyseModel or validateModel: reading a ci / cn element goes through XmlNode::convertToString
+  | other                         -- generate, flatten: they do not write the flag
   deriving Repr, DecidableEq
 
 /-- the process-wide state: is the flag on?  libxml2 starts with it on -/
